@@ -189,7 +189,7 @@ def check(run: common.Run):
             elif which == "fix3":
                 out = processing.fix(rule, max_iter=3)("a0\n")
             else:
-                out = processing.chain([rule])("a0\n")
+                out = processing.chain(r for r in [rule])("a0\n")      # an iterator: materialised once
         if len(calls) != mi or out != f"a{mi}\n":
             disagreements.append({"kind": "correspondence", "kernel": "K1 fix/chain pass bound (T04.1')",
                                   "case": {"which": which, "max_iter": mi, "passes": len(calls), "out": out}})
@@ -203,7 +203,7 @@ def check(run: common.Run):
     step = {"quick": {"constants": 2, "functions": 3, "repo": 6, "constructs": 1, "blank_runs": 3}, "thorough": {}}[run.tier]
     extra = [w for ws in list(WITNESS.values()) + list(FIXED_WITNESS.values()) for w in ws]
     fam["witnesses"] = extra
-    for name in ("witnesses", "imports", "resources", "aggregates", "invalid", "indented", "tabs", "eof", "constructs", "constants",
+    for name in ("witnesses", "tiny", "imports", "resources", "aggregates", "invalid", "indented", "tabs", "eof", "constructs", "constants",
                  "functions", "repo", "blank_runs"):
         srcs = fam[name][::step.get(name, 1)]
         for i, s in enumerate(srcs):
@@ -211,6 +211,8 @@ def check(run: common.Run):
                 combos = sw.OPTION_COMBOS
             elif name == "imports":        # keep_imports decides whether the import tracers run
                 combos = [sw.OPTION_COMBOS[j] for j in (0, 2, 5, 7)]
+            elif name == "tiny":
+                combos = [sw.OPTION_COMBOS[j] for j in (0, 7)]
             elif name in ("resources", "aggregates"):
                 combos = [sw.OPTION_COMBOS[j] for j in ((0, 5) if name == "resources" else (i % 8,))]
             elif name == "constructs":
